@@ -165,31 +165,114 @@ Definition fx_mems (s : sst) (lm : list item) : list srec :=
 Definition fx_globals (s : sst) (lg : list item) : list srec :=
   flat_map (fun it => if it_del it || is_import it then [] else opt_rec (lookup (t_gtag s) (it_id it)) [it_fp it; it_id it] []) lg.
 
-(* ---------- the records of the probes, from the flags left by resolve_special_instrumentation ---------- *)
-(* add_opcode_injections: per instruction before / after / alternate, empty lists are skipped.  The code loop
-   rewrites the ids of a list when it emits the list; at the function's final `end` ([last]) the alternate and the
-   after list are neither emitted nor rewritten, but they are reported all the same: stale ids *)
+(* ---------- the records of the probes of a function without special instrumentation ---------- *)
+(* add_opcode_injections: per instruction before / after / alternate, empty lists are skipped.  At the function's
+   final `end` ([last]) the encoder emits the before list only, and only that list is reported *)
 Fixpoint fx_loc_probes (pos : N) (last idx : nat) (body : list (fop * flags)) (tagof : nat -> mode -> N)
                        (remap : list fop -> option (list fop)) : option (list srec) :=
   match body with
   | [] => Some []
   | (_, f) :: body' =>
       let at_end := Nat.leb last idx in
-      let one (m : mode) (code : N) (l : list fop) (mapped : bool) : option (list srec) :=
+      let one (m : mode) (code : N) (l : list fop) : option (list srec) :=
         match l with
         | [] => Some []
-        | _ => match (if mapped then remap l else Some l) with
+        | _ => match remap l with
                | Some l' => Some [mkRec [1; code; N.of_nat idx; pos] l' (tagof idx m)]
                | None => None
                end
         end in
-      match one MBefore 0 (f_before f) true, one MAfter 1 (f_after f) (negb at_end),
-            one MAlternate 2 (match f_alt f with Some a => a | None => [] end) (negb at_end),
+      match one MBefore 0 (f_before f), one MAfter 1 (if at_end then [] else f_after f),
+            one MAlternate 2 (if at_end then [] else match f_alt f with Some a => a | None => [] end),
             fx_loc_probes pos last (S idx) body' tagof remap with
       | Some a, Some b, Some c, Some rest => Some (a ++ b ++ c ++ rest)
       | _, _, _, _ => None
       end
   end.
+(* ---------- the records of a function with special instrumentation ---------- *)
+(* resolve_special_instrumentation reports the probes of such a function itself (add_unresolved_injections), from the
+   flags as they are *before* the special modes are lowered: before / after code for every instruction, alternate and
+   special code once it is certain that the instruction stays (what sits on an instruction inside a region that a
+   block-alt removes is dropped by the lowering and not reported).  [site_step] mirrors the part of the
+   resolver that decides this (block_stack / delete_block / retain_end; Lowering.rstep has the same skeleton). *)
+Inductive site := SKeep | SAlt | SDrop.      (* reaches the instruction-level stage | opener replaced by its block-alt | removed *)
+Record sitest := mkSite { z_stack : list nat; z_del : option nat; z_retain : bool }.   (* head of z_stack = top *)
+Definition site_alt (is_else : bool) (f : flags) (st : sitest) : sitest * site :=
+  match f_balt f, z_del st with
+  | Some _, None => (mkSite (z_stack st) (Some (hd 0%nat (z_stack st))) is_else, SAlt)
+  | _, Some _ => (st, SDrop)
+  | None, None => (st, SKeep)
+  end.
+Definition site_step (op : fop) (f : flags) (st : sitest) : sitest * site :=
+  match op with
+  | FBlock _ | FLoop _ | FIf _ =>
+      site_alt false f (mkSite (length (z_stack st) :: z_stack st) (z_del st) (z_retain st))
+  | FElse => site_alt true f st
+  | FEnd =>
+      match z_stack st with
+      | [] => (st, SKeep)
+      | block_id :: rest =>
+          match z_del st with
+          | Some d =>
+              if Nat.eqb d block_id then
+                (mkSite rest None true, if z_retain st then SKeep else SDrop)
+              else (mkSite rest (Some d) (z_retain st), SDrop)
+          | None => (mkSite rest None (z_retain st), SKeep)
+          end
+      end
+  | _ => (st, match z_del st with Some _ => SDrop | None => SKeep end)
+  end.
+
+Definition mcode (m : mode) : N :=
+  match m with MBefore => 0 | MAfter => 1 | MAlternate => 2 | MSemanticAfter => 3 | MBlockEntry => 4 | MBlockExit => 5 | MBlockAlt => 6 end.
+Definition mode_list (f : flags) (m : mode) : list fop :=
+  match m with
+  | MBefore => f_before f | MAfter => f_after f | MAlternate => match f_alt f with Some a => a | None => [] end
+  | MSemanticAfter => f_sa f | MBlockEntry => f_be f | MBlockExit => f_bx f
+  | MBlockAlt => match f_balt f with Some a => a | None => [] end
+  end.
+(* add_unresolved_injections: the lists of [modes], empty ones skipped, after / alternate skipped at the final `end` *)
+Fixpoint fx_modes (pos : N) (idx : nat) (at_end : bool) (f : flags) (modes : list mode) (tagof : nat -> mode -> N)
+                  (remap : list fop -> option (list fop)) : option (list srec) :=
+  match modes with
+  | [] => Some []
+  | m :: ms =>
+      let l := if at_end && (match m with MAfter | MAlternate => true | _ => false end) then [] else mode_list f m in
+      match (match l with
+             | [] => Some []
+             | _ => match remap l with Some l' => Some [mkRec [1; mcode m; N.of_nat idx; pos] l' (tagof idx m)] | None => None end
+             end), fx_modes pos idx at_end f ms tagof remap with
+      | Some a, Some rest => Some (a ++ rest)
+      | _, _ => None
+      end
+  end.
+Fixpoint fx_unresolved (pos : N) (last idx : nat) (body : list (fop * flags)) (st : sitest) (tagof : nat -> mode -> N)
+                       (remap : list fop -> option (list fop)) : option (list srec) :=
+  match body with
+  | [] => Some []
+  | (op, f) :: body' =>
+      let '(st', what) := site_step op f st in
+      let at_end := Nat.leb last idx in
+      (* before / after code is encoded (and reported) for every instruction, also for one a block-alt removes; its
+         alternate and special code only when the instruction stays *)
+      let here :=
+        match fx_modes pos idx at_end f [MBefore; MAfter] tagof remap,
+              (match what with
+               | SDrop => Some []
+               | SAlt => fx_modes pos idx false f [MAlternate; MBlockAlt] tagof remap
+               | SKeep => if has_instr f
+                          then fx_modes pos idx at_end f [MAlternate; MSemanticAfter; MBlockEntry; MBlockExit] tagof remap
+                          else Some []
+               end) with
+        | Some a, Some b => Some (a ++ b)
+        | _, _ => None
+        end in
+      match here, fx_unresolved pos last (S idx) body' st' tagof remap with
+      | Some a, Some rest => Some (a ++ rest)
+      | _, _ => None
+      end
+  end.
+
 (* add_corrected_special_injections (only reached for a function with has_special_instr) *)
 Definition fx_func_probes (pos : N) (has_special : bool) (entry exit : list fop) (etag xtag : N)
                           (remap : list fop -> option (list fop)) : option (list srec) :=
